@@ -390,6 +390,41 @@ fn edge_sites(q: &QueryAst, pred: impl Fn(&Site, &QEdge) -> bool) -> Vec<(Vec<us
     out
 }
 
+const COUNT_ARGS: [i128; 10] = [0, 1, 2, 3, 1, 2, 4, -1, (i64::MAX as i128) + 1, 0];
+
+fn gen_count_arg(op: Op, t: &mut Tape) -> (Ty, FieldValue) {
+    let int_nn = Ty::named(Base::Int, false);
+    let mut one = |t: &mut Tape| {
+        let v = COUNT_ARGS[t.draw(COUNT_ARGS.len() as u32) as usize];
+        crate::world::int_fv(v, v > i64::MAX as i128)
+    };
+    match op {
+        Op::OneOf | Op::NotOneOf => {
+            let n = t.draw(4);
+            let items: Vec<FieldValue> = (0..n).map(|_| one(t)).collect();
+            (Ty::list(int_nn, false), FieldValue::List(items.into()))
+        }
+        _ => (int_nn, one(t)),
+    }
+}
+
+/// Fold edges (parent node path, item index) whose count filters live in the component of a
+/// site satisfying `pred` (the site is the fold's *origin* vertex).
+fn fold_edge_sites(q: &QueryAst, pred: impl Fn(&Site) -> bool) -> Vec<(Vec<usize>, usize)> {
+    edge_sites(q, |s, e| pred(s) && matches!(e.kind, EdgeKind::Fold(_)))
+}
+
+fn fold_spec_mut<'a>(q: &'a mut QueryAst, path: &[usize], idx: usize) -> Option<&'a mut FoldSpec> {
+    let n = node_at_mut(&mut q.root, path);
+    match &mut n.items[idx] {
+        QItem::Edge(e) => match &mut e.kind {
+            EdgeKind::Fold(fs) => Some(fs),
+            _ => None,
+        },
+        _ => None,
+    }
+}
+
 enum Relation {
     /// rows(transformed) ⊆ rows(original)
     NewSubsetOfOld,
@@ -496,6 +531,25 @@ fn build_relation(
     match which {
         // 0. adding a filter never adds rows (site in the root component)
         0 => {
+            // variant: a new filter on the count of a fold that hangs off a root-component
+            // vertex (it can only drop root rows; a nonexistent fold passes it)
+            let fcands = fold_edge_sites(&w.q, |s| !s.in_fold);
+            if !fcands.is_empty() && t.draw(2) == 0 {
+                let (path, idx) = fcands[t.draw(fcands.len() as u32) as usize].clone();
+                let mut q = w.q.clone();
+                let mut args = w.args.clone();
+                let vname = fresh_name(&q, "v");
+                let ops = [Op::Eq, Op::Ne, Op::Lt, Op::Le, Op::Gt, Op::Ge, Op::OneOf, Op::NotOneOf];
+                let op = ops[t.draw(ops.len() as u32) as usize];
+                let (vty, val) = gen_count_arg(op, t);
+                let fs = fold_spec_mut(&mut q, &path, idx)?;
+                fs.transform_count = true;
+                fs.count_filters.push(QFilter { op, operand: Operand::Var(vname.clone()) });
+                args.insert(vname.clone(), val);
+                q.vars.push(VarInfo { name: vname, ty: vty, regex: false, count: true });
+                let w2 = rebuild(w, w.world.clone(), q, args).ok()?;
+                return Some(("add-count-filter", w2, Relation::NewSubsetOfOld, None));
+            }
             let cands = prop_sites(&w.q, |s| !s.in_fold);
             if cands.is_empty() {
                 return None;
@@ -639,6 +693,38 @@ fn build_relation(
         }
         // 4. `=` and one_of with a single-element list agree
         4 => {
+            // variant: `=` on a fold count (any component: it is an equivalence)
+            let mut ccands = vec![];
+            for (path, idx) in fold_edge_sites(&w.q, |_| true) {
+                let n = node_at(&w.q.root, &path);
+                if let QItem::Edge(e) = &n.items[idx] {
+                    if let EdgeKind::Fold(fs) = &e.kind {
+                        for (fi, f) in fs.count_filters.iter().enumerate() {
+                            if f.op == Op::Eq && matches!(f.operand, Operand::Var(_)) {
+                                ccands.push((path.clone(), idx, fi));
+                            }
+                        }
+                    }
+                }
+            }
+            if !ccands.is_empty() && t.draw(2) == 0 {
+                let (path, idx, fi) = ccands[t.draw(ccands.len() as u32) as usize].clone();
+                let mut q = w.q.clone();
+                let mut args = w.args.clone();
+                let vname = fresh_name(&q, "v");
+                let fs = fold_spec_mut(&mut q, &path, idx)?;
+                let Operand::Var(old) = fs.count_filters[fi].operand.clone() else { return None };
+                let oldv = args.get(&old)?.clone();
+                fs.count_filters[fi] = QFilter { op: Op::OneOf, operand: Operand::Var(vname.clone()) };
+                args.insert(vname.clone(), FieldValue::List(vec![oldv].into()));
+                q.vars.push(VarInfo { name: vname, ty: Ty::list(Ty::named(Base::Int, false), false), regex: false, count: true });
+                if !var_used(&q.root, &old) {
+                    args.remove(&old);
+                    q.vars.retain(|v| v.name != old);
+                }
+                let w2 = rebuild(w, w.world.clone(), q, args).ok()?;
+                return Some(("count-equals-as-one-of", w2, Relation::SameMultiset, None));
+            }
             let mut cands = vec![];
             for s in sites(&w.q) {
                 let n = node_at(&w.q.root, &s.path);
@@ -677,6 +763,47 @@ fn build_relation(
         }
         // 5. a filter and its negation partition the rows (outside optional scopes, root component)
         5 => {
+            // variant: a count filter of a fold whose origin vertex is in the root component and
+            // outside every optional scope, and its exact negation
+            let mut ccands = vec![];
+            for (path, idx) in fold_edge_sites(&w.q, |s| !s.in_fold && !s.in_optional) {
+                let n = node_at(&w.q.root, &path);
+                if let QItem::Edge(e) = &n.items[idx] {
+                    if let EdgeKind::Fold(fs) = &e.kind {
+                        for (fi, f) in fs.count_filters.iter().enumerate() {
+                            // a count is never null and the variable is `Int!` / `[Int!]!`, so on
+                            // counts the ordering operators are exact complements as well
+                            if matches!(f.operand, Operand::Var(_)) {
+                                ccands.push((path.clone(), idx, fi));
+                            }
+                        }
+                    }
+                }
+            }
+            if !ccands.is_empty() && t.draw(2) == 0 {
+                let (path, idx, fi) = ccands[t.draw(ccands.len() as u32) as usize].clone();
+                let mut q0 = w.q.clone();
+                let mut args0 = w.args.clone();
+                {
+                    let fs = fold_spec_mut(&mut q0, &path, idx)?;
+                    let f = fs.count_filters.remove(fi);
+                    if let Operand::Var(v) = f.operand {
+                        if !var_used(&q0.root, &v) {
+                            args0.remove(&v);
+                            q0.vars.retain(|x| x.name != v);
+                        }
+                    }
+                }
+                let mut qn = w.q.clone();
+                {
+                    let fs = fold_spec_mut(&mut qn, &path, idx)?;
+                    fs.count_filters[fi].op = fs.count_filters[fi].op.negation();
+                }
+                let w0 = rebuild(w, w.world.clone(), q0, args0).ok()?;
+                let wn = rebuild(w, w.world.clone(), qn, w.args.clone()).ok()?;
+                let wf = rebuild(w, w.world.clone(), w.q.clone(), w.args.clone()).ok()?;
+                return Some(("count-filter-and-negation-partition", wf, Relation::Partition(Box::new(wn)), Some(w0)));
+            }
             let mut cands = vec![];
             for s in sites(&w.q) {
                 if s.in_fold || s.in_optional {
